@@ -325,11 +325,15 @@ func (h *fibonacci[K, V]) Insert(key K, val V) {
 
 // Merge merges another heap with the current heap.
 // The new heap must have the same underlying type as the current one.
+// All items are moved to the current heap and the other heap is left empty.
 func (h *fibonacci[K, V]) Merge(H MergeableHeap[K, V]) {
-	if hh, ok := H.(*fibonacci[K, V]); ok {
+	if hh, ok := H.(*fibonacci[K, V]); ok && hh != h {
 		h.meld(h.ext, hh.ext)
 		h.ext = h.pickExt(h.ext, hh.ext)
 		h.n += hh.n
+
+		// The nodes of the other heap belong to the current heap now.
+		hh.ext, hh.n = nil, 0
 	}
 }
 
